@@ -83,7 +83,7 @@ def assumptions():
     return ["order_before(k, k) / order_after(k, k) with k absent may raise KeyError or ValueError (the statement names both)",
             "values are non-empty single-line strings without surrounding blanks (what a dump/parse cycle preserves)",
             "return values of assignments and re-ordering calls are not part of the statement",
-            "copy() and dump/re-parse continue on the new object; the object left behind is not observed",
+            "copy() and dump/re-parse continue on the new object; the object left behind must keep the projection it had",
             "graph mode: two objects with equal complete projections have equal futures in the model; the depth-2 tree "
             "from the representative of every abstract state covers the first two steps of any implementation-only difference"]
 
@@ -270,9 +270,13 @@ def execute(keys, init, prefix, hist, every, info=None):
     (every=True) or after the last one only."""
     d = build(init)
     c = ListModel(init[1]).canon()
+    left = []          # objects left behind by copy() / dump+re-parse, with the projection they had then
     for op in prefix:
+        d0, c0 = d, c
         d, _ = real_apply(d, op)
         c, _ = model_step(c, op)
+        if d is not d0:
+            left.append((op[0], d0, model_obs(c0, keys)))
     if not hist:
         robs, rerr = real_observe(d, keys)
         bad = compare(None, ("ok", None), ("ok", None), model_obs(c, keys), robs, rerr)
@@ -280,11 +284,21 @@ def execute(keys, init, prefix, hist, every, info=None):
     n = len(hist)
     for i, op in enumerate(hist):
         before = c
+        d0 = d
         d, observed = real_apply(d, op)
         c, expected = model_step(c, op)
+        if d is not d0:
+            left.append((op[0], d0, model_obs(before, keys)))
         if i == n - 1:
             robs, rerr = real_observe(d, keys)
             bad = compare(op, expected, observed, model_obs(c, keys), robs, rerr)
+            if not bad:
+                # the paragraphs left behind by copy() / re-parse are independent objects: still what they were
+                for how, obj, mobs in left:
+                    lobs, lerr = real_observe(obj, keys)
+                    if lerr is not None or lobs != mobs:
+                        bad = ("deb822/%s/original-changed-by-later-operations" % how, mobs, lerr or lobs)
+                        break
         elif every:
             robs, rerr = real_observe(d, keys)
             bad = compare(op, expected, observed, model_obs(c, keys), robs, rerr)
